@@ -170,6 +170,111 @@ theorem wildcard_blocked (servers : List Server) (s : Server) (lh dh : Text) (dp
 theorem both_transport_listener_covered (tp : Transport) : transportMatches ModeTransport.both tp = true := by
   cases tp <;> rfl
 
+/-! ### histories of runtime reconfiguration -/
+
+/-- **C23 over histories.** For every initial listener state and every history of runtime
+    reconfigurations (`Servers.update`) and upstream connection attempts: an attempt whose destination
+    denotes — under any spelling the specification covers — a socket of the listener set that is
+    CURRENT at that point of the history (the state reached by the operations before it) never reaches
+    the socket primitive; it ends with the destination-unknown error. -/
+theorem history_never_connects_to_current_own_socket (st0 : State) (ops : List Op) (i : Nat)
+    (dh : Text) (dp : Nat) (tp : Transport) (ok : Bool)
+    (hop : ops[i]? = some (Op.connect dh dp tp ok))
+    (hown : denotesOwnSocket (stateAfter st0 (ops.take i)).live dh dp tp = true) :
+    (run st0 ops)[i]? =
+      some (Out.trace [Ev.hookServerConnect, Ev.hookServerConnectError, Ev.completedKilled]) := by
+  induction ops generalizing st0 i with
+  | nil => simp at hop
+  | cons op rest ih =>
+    cases i with
+    | zero =>
+      simp only [List.getElem?_cons_zero, Option.some.injEq] at hop
+      subst hop
+      simp only [List.take_zero, stateAfter] at hown
+      have hb := blocked_sets_error_and_no_connect st0.live dh dp tp ok
+        (spec_implies_blocked st0.live dh dp tp hown)
+      simp [run, stepOut, hb.2.1]
+    | succ j =>
+      simp only [List.getElem?_cons_succ] at hop
+      simp only [List.take_succ_cons, stateAfter] at hown
+      simp only [run, List.getElem?_cons_succ]
+      exact ih (stepState st0 op) j hop hown
+
+/-- the output of every step of a history is determined by the state current at that step -/
+theorem run_step (st0 : State) (ops : List Op) (i : Nat) (op : Op) (hop : ops[i]? = some op) :
+    (run st0 ops)[i]? = some (stepOut (stateAfter st0 (ops.take i)) op) := by
+  induction ops generalizing st0 i with
+  | nil => simp at hop
+  | cons o rest ih =>
+    cases i with
+    | zero =>
+      simp only [List.getElem?_cons_zero, Option.some.injEq] at hop
+      subst hop; simp [run, stateAfter]
+    | succ j =>
+      simp only [List.getElem?_cons_succ] at hop
+      simp only [run, List.getElem?_cons_succ, List.take_succ_cons, stateAfter]
+      exact ih (stepState st0 o) j hop
+
+private theorem lookupKey_update_new (st : State) (modes : List Nat) (start : List (Nat × Server)) (k : Nat)
+    (s : Server) (hk : k ∈ modes) (hnew : lookupKey st k = none) (hs : lookupKey start k = some s) :
+    s ∈ (update st true modes start).live := by
+  simp only [update, if_true, State.live, List.map_map, List.mem_map]
+  exact ⟨k, hk, by simp [hnew, hs]⟩
+
+private theorem lookupKey_update_kept (st : State) (modes : List Nat) (start : List (Nat × Server)) (k : Nat)
+    (s : Server) (hk : k ∈ modes) (hold : lookupKey st k = some s) :
+    s ∈ (update st true modes start).live := by
+  simp only [update, if_true, State.live, List.map_map, List.mem_map]
+  exact ⟨k, hk, by simp [hold]⟩
+
+private theorem denotes_mono (servers : List Server) (s : Server) (hs : s ∈ servers) (dh : Text) (dp : Nat)
+    (tp : Transport) (h : denotesOwnSocket [s] dh dp tp = true) : denotesOwnSocket servers dh dp tp = true := by
+  simp only [denotesOwnSocket, List.any_cons, List.any_nil, Bool.or_false] at h
+  simp only [denotesOwnSocket, List.any_eq_true]
+  exact ⟨s, hs, by simpa [List.any_eq_true] using h⟩
+
+/-- **a listener added or moved at runtime is protected at once**: after `update` has started an
+    instance for a new mode spec, every destination that denotes one of ITS sockets is blocked -/
+theorem new_listener_protected (st : State) (modes : List Nat) (start : List (Nat × Server)) (k : Nat)
+    (s : Server) (dh : Text) (dp : Nat) (tp : Transport)
+    (hk : k ∈ modes) (hnew : lookupKey st k = none) (hs : lookupKey start k = some s)
+    (hown : denotesOwnSocket [s] dh dp tp = true) :
+    selfConnect (stepState st (Op.reconfigure true modes start)).live dh dp tp = true :=
+  spec_implies_blocked _ dh dp tp
+    (denotes_mono _ s (lookupKey_update_new st modes start k s hk hnew hs) dh dp tp hown)
+
+/-- a listener kept across a reconfiguration stays protected -/
+theorem kept_listener_protected (st : State) (modes : List Nat) (start : List (Nat × Server)) (k : Nat)
+    (s : Server) (dh : Text) (dp : Nat) (tp : Transport)
+    (hk : k ∈ modes) (hold : lookupKey st k = some s)
+    (hown : denotesOwnSocket [s] dh dp tp = true) :
+    selfConnect (stepState st (Op.reconfigure true modes start)).live dh dp tp = true :=
+  spec_implies_blocked _ dh dp tp
+    (denotes_mono _ s (lookupKey_update_kept st modes start k s hk hold) dh dp tp hown)
+
+/-- with `server = False` nothing listens any more and nothing is blocked -/
+theorem server_off_no_listeners (st : State) (modes : List Nat) (start : List (Nat × Server))
+    (dh : Text) (dp : Nat) (tp : Transport) :
+    (stepState st (Op.reconfigure false modes start)).live = [] ∧
+    selfConnect (stepState st (Op.reconfigure false modes start)).live dh dp tp = false := by
+  simp [stepState, update, State.live, selfConnect]
+
+-- the c23-3 scenario: start on 127.0.0.1:8080, connect elsewhere, add a listener on 127.0.0.1:8081 at
+-- runtime, then "LOCALHOST.":8081 is refused, and after the listener is dropped again it is not
+private def hStart : List (Nat × Server) :=
+  [(0, ⟨.tcp, [([0x31,0x32,0x37,0x2e,0x30,0x2e,0x30,0x2e,0x31], 8080)]⟩),
+   (1, ⟨.tcp, [([0x31,0x32,0x37,0x2e,0x30,0x2e,0x30,0x2e,0x31], 8081)]⟩)]
+private def hLocal : Text := [0x4c,0x4f,0x43,0x41,0x4c,0x48,0x4f,0x53,0x54,0x2e]
+example : run [] [.reconfigure true [0] hStart, .connect hLocal 8081 .tcp true,
+                  .reconfigure true [0, 1] hStart, .connect hLocal 8081 .tcp true,
+                  .reconfigure true [0] hStart, .connect hLocal 8081 .tcp false]
+    = [.listeners [(0, ⟨.tcp, [([0x31,0x32,0x37,0x2e,0x30,0x2e,0x30,0x2e,0x31], 8080)]⟩)],
+       .trace [.hookServerConnect, .socketOpen, .hookServerConnected, .completedOk, .handleConnection, .hookServerDisconnected],
+       .listeners hStart,
+       .trace [.hookServerConnect, .hookServerConnectError, .completedKilled],
+       .listeners [(0, ⟨.tcp, [([0x31,0x32,0x37,0x2e,0x30,0x2e,0x30,0x2e,0x31], 8080)]⟩)],
+       .trace [.hookServerConnect, .socketOpen, .hookServerConnectError, .completedError]] := by decide +kernel
+
 /-! ### non-vacuity: concrete spellings, computed by the kernel -/
 
 private def srvTcp : List Server := [⟨.tcp, [([0x31,0x32,0x37,0x2e,0x30,0x2e,0x30,0x2e,0x31], 8080)]⟩]   -- 127.0.0.1:8080
